@@ -27,6 +27,8 @@ KNOWN_WHAT = {
     "far-upvalue-index-truncated": "closure captures a local living in a register > 255: LOAD_UPVALUE/SET_UPVALUE index is truncated to 8 bits",
     "reduce-into-hinted-target": "(set v (op a b v)) with >= 3 operands accumulates into v's own register before v is read (near local only: context dependent)",
     "far-local-capture-rejected": "closure capturing a local in a register > 255 is rejected at compile time (8-bit upvalue index)",
+    "jump-offset-overflow": "if branch / while body > 32767 instructions: 16-bit conditional jump offset overflows silently",
+    "large-branch-rejected": "if branch / while body > 32767 instructions is rejected at compile time ('jump is too far')",
     "destructure-rest-far-registers": "`& rest` destructuring loop is emitted without write-back, wrong with > 255 live locals",
 }
 
@@ -61,6 +63,9 @@ def run(ctx):
 
     # ---------------------------------------------------------------- (E) targeted corpus first
     corpus = json.load(open(os.path.join(VERIF, "corpus/C02/targeted.json")))
+    import re as _re
+    for c in corpus:     # {{N*TEXT}} = TEXT repeated N times (huge-body scenarios)
+        c["src"] = _re.sub(r"\{\{(\d+)\*(.*?)\}\}", lambda m: m.group(2) * int(m.group(1)), c["src"])
     cases = [("c%d" % i, c["e0"], c["src"]) for i, c in enumerate(corpus)]
     got, problems = oracle.run_impl_parallel(janet, cases, jobs=8)
     reported = set()
@@ -68,18 +73,21 @@ def run(ctx):
     for i, c in enumerate(corpus):
         g = got.get("c%d" % i)
         ok = g is not None and g["final"] == c["expect_final"] and (not c["expect_trace"] or g["trace"] == c["expect_trace"])
-        rejected = g is not None and g["final"] and g["final"].startswith(oracle.LIMIT_PREFIX)
+        fin = (g or {}).get("final") or ""
         if not ok:
             corpus_fail += 1
             sig = c.get("sig") or ("corpus:" + c["name"])
-            if rejected:
-                # with fix-C02-far-upvalue-capture applied the miscompilation became a compile error: still not what the
-                # property asks for (a well-formed program does not compile), reported under its own signature
+            # where a fix turned a miscompilation into a compile error the result is still not what the property asks for
+            # (a well-formed program does not compile): reported under its own signature
+            if fin.startswith(oracle.LIMIT_PREFIX):
                 sig = "far-local-capture-rejected"
                 c = dict(c, what="well-formed program whose closure captures a local living in a register > 255 is rejected with a compile error")
+            elif fin.startswith("C jump is too far"):
+                sig = "large-branch-rejected"
+                c = dict(c, what="well-formed program with an if branch / while body of more than 32767 instructions is rejected with the compile error 'jump is too far' (16-bit conditional jump offset)")
             if sig not in reported:
                 reported.add(sig)
-                ctx.violation(sig, {"kind": "corpus", "name": c["name"], "source": c["src"], "expected": {"final": c["expect_final"], "trace": c["expect_trace"]},
+                ctx.violation(sig, {"kind": "corpus", "name": c["name"], "source": c["src"] if len(c["src"]) < 20000 else c["src"][:2000] + " ...[%d chars]" % len(c["src"]), "expected": {"final": c["expect_final"], "trace": c["expect_trace"]},
                                     "observed": g}, what=c.get("what") or ("targeted scenario %s fails" % c["name"]))
     ctx.say("corpus: %d scenarios, %d failing" % (len(corpus), corpus_fail))
 
